@@ -1,10 +1,13 @@
 /-!
 # C01 — enumerated-list markers: `roman.py`, `Body.parse_enumerator`, `Body.make_enumerator`
 
-Mirrors `snooty/tinydocutils/roman.py` (a lookup table I..XX: `to_roman n = table[n-1]`, `from_roman s = table.index(s)+1`,
-both raising `ValueError` outside the table) and `snooty/tinydocutils/states.py` `Body.parse_enumerator` /
-`Body.make_enumerator`. Text is `List Char`. The table and the `except` clause around the converter call are parameters,
-instantiated with the generated `Gen/Enum.lean`.
+Mirrors `snooty/tinydocutils/roman.py` — the standard conversion over the numeral map (M 1000, CM 900, … I 1): `to_roman`
+takes numerals greedily for `0 < n < MAX_ROMAN`, `from_roman` reads numerals greedily and accepts the result only if it is in
+range and spells back to the input; both raise `ValueError` subclasses otherwise — and `snooty/tinydocutils/states.py`
+`Body.parse_enumerator` / `Body.make_enumerator`. Text is `List Char`. The numeral map, the bound and the `except` clause
+around the converter call are parameters, instantiated with the generated `Gen/Enum.lean`.
+(`toRomanTable` / `fromRomanTable` are the lookup-table functions of the code BEFORE the repair, kept for the refutation
+witnesses.)
 -/
 namespace SnootyVerif.Enumerator
 
@@ -19,20 +22,77 @@ deriving instance DecidableEq for Except
 
 /-! ## roman.py -/
 
+/-- `ROMAN_NUMERAL_MAP` and `MAX_ROMAN` -/
+structure Roman where
+  map : List (List Char × Nat)
+  max : Nat
+
+/-- `while n >= value: result += numeral; n -= value` — returns (emitted text, remaining n). The loop runs at most `n` times
+when `value > 0` (`roman_map_strictly_decreasing` establishes that for the real map), so fuel `n` is exact. -/
+def emit (numeral : List Char) (value : Nat) : Nat → Nat → List Char × Nat
+  | 0, n => ([], n)
+  | fuel + 1, n =>
+    if value ≤ n then
+      let r := emit numeral value fuel (n - value)
+      (numeral ++ r.1, r.2)
+    else ([], n)
+
+/-- `for numeral, value in ROMAN_NUMERAL_MAP: …` of `to_roman` -/
+def toRomanAux : List (List Char × Nat) → Nat → List Char
+  | [], _ => []
+  | (numeral, value) :: rest, n =>
+    let r := emit numeral value n n
+    r.1 ++ toRomanAux rest r.2
+
+/-- `roman.to_roman` (`OutOfRangeError` is a `ValueError`) -/
+def toRoman (R : Roman) (n : Nat) : Except PyErr (List Char) :=
+  if 0 < n ∧ n < R.max then .ok (toRomanAux R.map n) else .error .ValueError
+
+/-- `while s[index:index+len(numeral)] == numeral: result += value; index += len(numeral)` on the unread rest of `s` —
+returns (new rest, new result). At most `len(rest)` iterations for a non-empty numeral. -/
+def eat (numeral : List Char) (value : Nat) : Nat → List Char → Nat → List Char × Nat
+  | 0, t, acc => (t, acc)
+  | fuel + 1, t, acc =>
+    if numeral.isPrefixOf t then eat numeral value fuel (t.drop numeral.length) (acc + value)
+    else (t, acc)
+
+/-- `for numeral, value in ROMAN_NUMERAL_MAP: …` of `from_roman` -/
+def fromRomanAux : List (List Char × Nat) → List Char → Nat → Nat
+  | [], _, acc => acc
+  | (numeral, value) :: rest, t, acc =>
+    let r := eat numeral value t.length t acc
+    fromRomanAux rest r.1 r.2
+
+/-- `roman.from_roman`: greedy reading, then `if not (0 < result < MAX_ROMAN) or to_roman(result) != s: raise
+InvalidRomanNumeralError` (a `ValueError`) -/
+def fromRoman (R : Roman) (s : List Char) : Except PyErr Nat :=
+  if 0 < fromRomanAux R.map s 0 ∧ fromRomanAux R.map s 0 < R.max ∧ toRomanAux R.map (fromRomanAux R.map s 0) = s then
+    .ok (fromRomanAux R.map s 0)
+  else .error .ValueError
+
+/-- values strictly decreasing and positive, numerals non-empty: what makes the two greedy loops terminate and agree -/
+def mapWellFormed : List (List Char × Nat) → Bool
+  | [] => true
+  | [(numeral, value)] => numeral ≠ [] && 0 < value
+  | (numeral, value) :: (numeral', value') :: rest =>
+    numeral ≠ [] && value' < value && mapWellFormed ((numeral', value') :: rest)
+
+/-! ### the lookup table of the code before the repair (I..XX; at first with "VII" twice) -/
+
 def indexOf (table : List (List Char)) (s : List Char) : Option Nat :=
   match table with
   | [] => none
   | x :: rest => if x = s then some 0 else (indexOf rest s).map (· + 1)
 
-/-- `roman.to_roman` -/
-def toRoman (table : List (List Char)) (n : Nat) : Except PyErr (List Char) :=
+/-- the former `roman.to_roman`: `ROMAN_NUMERALS[n - 1]` -/
+def toRomanTable (table : List (List Char)) (n : Nat) : Except PyErr (List Char) :=
   if n < 1 ∨ n > table.length then .error .ValueError
   else match table[n - 1]? with
     | some s => .ok s
     | none => .error .ValueError
 
-/-- `roman.from_roman` -/
-def fromRoman (table : List (List Char)) (s : List Char) : Except PyErr Nat :=
+/-- the former `roman.from_roman`: `ROMAN_NUMERALS.index(s) + 1` -/
+def fromRomanTable (table : List (List Char)) (s : List Char) : Except PyErr Nat :=
   match indexOf table s with
   | some i => .ok (i + 1)
   | none => .error .ValueError
@@ -63,12 +123,12 @@ def upperAscii (c : Char) : Char := if isLowerAZ c then Char.ofNat (c.toNat - 32
 def maxStrDigits : Nat := 4300
 
 /-- `self.enum.converters[sequence](text)`; `KeyError` for an unknown sequence -/
-def convert (table : List (List Char)) (seq : String) (text : List Char) : Except PyErr Nat :=
+def convert (R : Roman) (seq : String) (text : List Char) : Except PyErr Nat :=
   if seq = "arabic" then (if text.length > maxStrDigits then .error .ValueError else .ok (digitsValue text))
   else if seq = "loweralpha" then (match text with | [c] => .ok (c.toNat - 96) | _ => .error .TypeError)
   else if seq = "upperalpha" then (match text with | [c] => .ok (c.toNat - 64) | _ => .error .TypeError)
-  else if seq = "lowerroman" then fromRoman table (text.map upperAscii)
-  else if seq = "upperroman" then fromRoman table text
+  else if seq = "lowerroman" then fromRoman R (text.map upperAscii)
+  else if seq = "upperroman" then fromRoman R text
   else .error .KeyError
 
 /-- what the `try … except` around the converter call does with an exception of class `e`:
@@ -89,7 +149,7 @@ def firstSeq (seqs : List String) (text : List Char) : Option String :=
   | s :: rest => if seqMatches s text = some true then some s else firstSeq rest text
 
 structure Tables where
-  roman : List (List Char)
+  roman : Roman
   sequences : List String
   handlers : List (List String × List String)
 
@@ -138,14 +198,14 @@ def EnumeratorMatch (T : Tables) (text : List Char) : Prop :=
   text = ['#'] ∨ ∃ s ∈ T.sequences, seqMatches s text = some true
 
 /-- `Body.make_enumerator` for the alphabetic / roman / arabic sequences: `none` = Python `None` (out of range) -/
-def makeEnumerator (table : List (List Char)) (ordinal : Nat) (seq : String) : Except PyErr (Option (List Char)) :=
+def makeEnumerator (R : Roman) (ordinal : Nat) (seq : String) : Except PyErr (Option (List Char)) :=
   if seq = "#" then .ok (some ['#'])
   else if seq = "arabic" then .ok (some (Nat.toDigits 10 ordinal))
   else if seq = "loweralpha" ∨ seq = "upperalpha" then
     (if ordinal > 26 then .ok none
      else .ok (some [Char.ofNat (ordinal + (if seq = "loweralpha" then 96 else 64))]))
   else if seq = "lowerroman" ∨ seq = "upperroman" then
-    (match toRoman table ordinal with
+    (match toRoman R ordinal with
      | .ok r => .ok (some (if seq = "lowerroman" then r.map (fun c => if isUpperAZ c then Char.ofNat (c.toNat + 32) else c) else r))
      | .error _ => .ok none)       -- `except ValueError: return None`
   else .error .ParserError
